@@ -57,7 +57,12 @@ def _common_config(rng, profile):
     files = FILE_NAMES[:]
     rng.shuffle(files)
     files = files[:nfiles]
-    if profile == 'stale' and rng.random() < 0.12:
+    if profile == 'stale' and rng.random() < 0.08:
+        # distinct files whose names are near-aliases of each other: Unicode normalisation forms
+        # (legal and distinct on Linux), letter case, a trailing blank
+        files = list(rng.choice([('src/caf\u00e9.py', 'src/cafe\u0301.py'), ('src/Mod.py', 'src/mod.py'),
+                                 ('src/mod.py', 'src/mod.py '), ('src/\u212b.py', 'src/\u00c5.py')])) + files[:1]
+    elif profile == 'stale' and rng.random() < 0.12:
         # path aliasing: a `..` path through a symlinked directory next to its lexical twin
         files = [f for f in files if f not in ('src/a/mod.py', 'src/mod.py')][:2] + ['src/link/../mod.py', 'src/mod.py']
     ng = rng.choice([1, 1, 2, 3])
@@ -259,8 +264,9 @@ def make_torn(rng, tier):
         elif r < 0.94 and 'diskfull' in enabled:
             ops.append({'k': 'diskfull', 'free': rng.choice([0, 0, 10, 300, None])})
         elif r < 0.96 and 'tmpfile' in enabled:
-            ops.append({'k': rng.choice(['tmpfile', 'tmpfile', 'sibling']), 'c': c, 'r': rng.randrange(1 << 30),
-                        'dv': rng.choice([-1, -1, 1, -5])})
+            ops.append({'k': rng.choice(['tmpfile', 'tmpfile', 'sibling', 'sibling']), 'c': c, 'r': rng.randrange(1 << 30),
+                        'dv': rng.choice([-1, -1, 1, -5]), 'saved_days': rng.choice([0, 0, 3, 31, 45, 400]),
+                        'read_days': rng.choice([0, 0.5, 2, 29, 31, 400])})
         elif r < 0.98 and 'powerloss' in enabled:
             ops.append({'k': rng.choice(['powerloss', 'powerloss', 'sync']), 't': []})
     # epilogue: faults stop; bounded recovery and repair
@@ -329,6 +335,9 @@ def make_diff(rng, tier):
             # the cache location becomes read-only / writable again: saves fail with a warning
             ro = not ro
             ops.append({'k': 'chmod', 'c': 0, 'which': 'ver', 'mode': 0o555 if ro else 0o755, 'create': False})
+        if not fsmode and rng.random() < 0.07:
+            # the (possibly non-existent) path of the module stops / starts being stat-able
+            ops.append({'k': 'srcblock', 'f': f, 'how': rng.choice(['notdir', 'noperm', 'ok', 'ok'])})
         if rng.random() < 0.1:
             new = corpus.base_text(rng, max_lines)               # replace the whole file
         elif rng.random() < style:
